@@ -83,6 +83,8 @@ def check(run):
     _r45(run, gmod, smod)
     _r6(run, prog)
     _r7(run, classes)
+    from ..cachekey import check_caches
+    check_caches(run, [m_ for m_ in prog.modules.values() if m_.relpath in set(FILES) and not m_.name.endswith('#pxd')], 'C02-K', prog=prog)
 
 
 def _helpers(prog, ci):
@@ -488,8 +490,32 @@ def _r6(run, prog):
                      'GaussianQuadrature.%s rebuilds the node/weight table only when %s: evaluate() walks the table from the current '
                      'min_order, so after the other changes it reads nodes and weights of the wrong orders'
                      % (name, ' and '.join(('' if pol else 'not ') + norm(e) for e, pol in cond)))
+    # writer / reader agreement: evaluate() walks the table from offset 0 taking `order` entries for order = lo, lo + 1, ...; the builder must
+    # lay the table out for the same sequence of orders (same first order, same last order)
+    run.subject('C02-R6')
+    evf = ci.methods.get('evaluate')
+
+    def order_loop(fn):
+        """(loop, lo text, hi text) of the 'for order in range(lo, hi)' loop that advances an offset by the order"""
+        for lp in ast.walk(fn):
+            if isinstance(lp, ast.For) and isinstance(lp.target, ast.Name) and isinstance(lp.iter, ast.Call) and dotted(lp.iter.func) == 'range' \
+                    and len(lp.iter.args) == 2:
+                adv = [st for st in ast.walk(lp) if isinstance(st, ast.AugAssign) and isinstance(st.op, ast.Add) and norm(st.value) == lp.target.id]
+                if adv:
+                    return lp, norm(lp.iter.args[0]), norm(lp.iter.args[1]), norm(adv[0].target)
+        return None
+    wl_, rl_ = order_loop(builder), (order_loop(evf) if evf is not None else None)
+    if wl_ is None or rl_ is None:
+        run.undecided('C02-R6', 'GaussianQuadrature table layout', 'order loops of _build_cache / evaluate not recognised')
+    elif (wl_[1], wl_[2]) == (rl_[1], rl_[2]):
+        run.ok('C02-R6', 'GaussianQuadrature table layout', 'built and read for order in range(%s, %s), offsets advanced by the order' % (wl_[1], wl_[2]))
+    else:
+        run.fail('C02-R6', '%s|GaussianQuadrature|table-layout' % ci.mod.name, ci.mod.relpath, wl_[0].lineno,
+                 'GaussianQuadrature._build_cache lays the node/weight table out for order in range(%s, %s) but evaluate() reads it from offset 0 for '
+                 'order in range(%s, %s): the nodes and weights read for an order belong to another order' % (wl_[1], wl_[2], rl_[1], rl_[2]))
     if n < 2:
-        raise AnalysisError('GaussianQuadrature: expected min_order and max_order setters feeding _build_cache, found %d' % n)
+        run.subject('C02-R6')
+        run.undecided('C02-R6', 'GaussianQuadrature setters', 'only %d setter writes a field the builder reads' % n)
 
 
 def _stores(fn):
@@ -685,6 +711,8 @@ _MU = LS + 'multiplet.pyx'
 _AZ = 'cherab/core/atomic/zeeman.pyx'
 _GQ = 'cherab/core/math/integrators/integrators1d.pyx'
 MUTANTS = [
+    dict(name='quadrature-table-built-from-order-one', file='cherab/core/math/integrators/integrators1d.pyx',
+         find="        for order in range(self._min_order, self._max_order + 1):\n            self._roots[i:i + order]", replace="        for order in range(1, self._max_order + 1):\n            self._roots[i:i + order]", expect='C02-R6'),
     dict(name='multiplet-table-not-copied', file=LS + 'multiplet.pyx', find="        multiplet = np.array(multiplet, dtype=np.float64)", replace="        multiplet = np.ascontiguousarray(multiplet, dtype=np.float64)", expect='C02-R7'),
     dict(name='stark-sigma-from-zeroed-width', edits=[
         dict(file=LS + 'stark.pyx', find="        sigma = fwhm_full / _SIGMA2FWHM\n\n        fwhm_lorentz_to_total", replace="        fwhm_lorentz_to_total"),
